@@ -409,9 +409,11 @@ pub fn program_nest(d: usize) -> Vec<(&'static str, String)> {
 }
 
 pub fn hexs(b: &[u8]) -> String {
+    const D: &[u8; 16] = b"0123456789abcdef";
     let mut s = String::with_capacity(b.len() * 2);
     for x in b {
-        s.push_str(&format!("{x:02x}"));
+        s.push(D[(x >> 4) as usize] as char);
+        s.push(D[(x & 15) as usize] as char);
     }
     s
 }
